@@ -214,6 +214,70 @@ Definition copy_ops (chunks : list bool) : list wop :=
 Definition file_ops (f : fileprog) : list wop :=
   (if fp_declared f then [] else [OSrc (fp_sniff_ok f) Abort]) ++ [OWrite Abort] ++ copy_ops (fp_chunks f) ++ [OEndCopy].
 
+(* some Read of the file's source fails (success flags) *)
+Definition fp_fails (f : fileprog) : bool :=
+  (negb (fp_declared f) && negb (fp_sniff_ok f)) || existsb negb (fp_chunks f).
+
+(* ---- what a source Read reports: the error VALUE matters ----
+   An upload source is an io.Reader of the caller: a Read returns nil, or io.EOF (the end of the file, early or
+   not: nothing announces a length), or io.ErrUnexpectedEOF (a truncated stream: what io.ReadFull-based and
+   length-prefixed sources, gzip readers and response bodies report), or any other error value (a custom error,
+   io.ErrClosedPipe, context.Canceled, an error that WRAPS io.EOF: only the bare sentinel marks the end).
+   The sources considered are sticky: what the first Read that does not return nil reports, every later Read
+   reports again. The goroutine treats the values differently in its two phases:
+   - the sniffing io.ReadFull (512 bytes): io.EOF and io.ErrUnexpectedEOF are ReadFull's own way of saying that the
+     file is shorter than the window, so both are taken for the end there and the copy follows (it reads the source
+     again: a sticky io.ErrUnexpectedEOF fails it, a sticky io.EOF ends it); any other value aborts;
+   - io.Copy: io.EOF alone is the end; every other value, io.ErrUnexpectedEOF included, is a failure.
+   sf_with_data: the first Read of the copy that does not return nil hands out some bytes together with its error
+   (io.Copy writes them first). sf_once: the source is NOT sticky: it reports its value once and io.EOF from then on
+   (what a source built on io.ReadFull does when its own input ends early). That makes a difference in one place only:
+   an io.ErrUnexpectedEOF reported once inside the sniffing window is taken for a short file and the copy then meets
+   io.EOF (sniff_swallowed). lower compiles a source into the success flags of fileprog. *)
+Inductive rdres := RdOk | RdEnd | RdTrunc | RdErr.
+Record srcfile := mksf { sf_declared : bool; sf_sniff : rdres; sf_chunks : list rdres; sf_with_data : bool; sf_once : bool }.
+
+(* the copy: Reads until one reports something else than nil; ends_copy says which values are the end *)
+Definition is_eof (r : rdres) : bool := match r with RdEnd => true | _ => false end.
+Fixpoint lower_chunks_with (ends_copy : rdres -> bool) (wd : bool) (l : list rdres) : list bool :=
+  match l with
+  | [] => []
+  | r :: rest =>
+    match r with
+    | RdOk => true :: lower_chunks_with ends_copy wd rest
+    | _ => if ends_copy r then (if wd then [true] else [])
+           else (if wd then [true; false] else [false])
+    end
+  end.
+Definition lower_with (ends_copy : rdres -> bool) (f : srcfile) : fileprog :=
+  if sf_declared f then mkfp true true (lower_chunks_with ends_copy (sf_with_data f) (sf_chunks f))
+  else match sf_sniff f with
+       | RdOk => mkfp false true (lower_chunks_with ends_copy (sf_with_data f) (sf_chunks f))
+       | RdErr => mkfp false false []
+       | r => mkfp false true (if sf_once f then []                      (* the copy meets io.EOF *)
+                               else lower_chunks_with ends_copy false [r]) (* sticky: the copy meets it again *)
+       end.
+Definition lower : srcfile -> fileprog := lower_with is_eof.
+(* a wrong reading: the test of the sniffing ReadFull applied to the copy as well (a truncated stream taken for its end) *)
+Definition is_eof_or_trunc (r : rdres) : bool := match r with RdEnd | RdTrunc => true | _ => false end.
+Definition lower_trunc_benign : srcfile -> fileprog := lower_with is_eof_or_trunc.
+
+(* the property's own notion, independent of lower: the source fails when the first Read that does not return nil
+   reports something else than the end of the file *)
+Definition src_reads (f : srcfile) : list rdres := (if sf_declared f then [] else [sf_sniff f]) ++ sf_chunks f.
+Fixpoint first_stop (l : list rdres) : rdres :=
+  match l with
+  | [] => RdOk
+  | RdOk :: r => first_stop r
+  | x :: _ => x
+  end.
+Definition is_failure (r : rdres) : bool := match r with RdTrunc | RdErr => true | _ => false end.
+Definition src_fails (f : srcfile) : bool := is_failure (first_stop (src_reads f)).
+(* the one failure the goroutine cannot tell from a short file: io.ErrUnexpectedEOF, reported once, inside the sniffing window *)
+Definition sniff_swallowed (f : srcfile) : bool :=
+  negb (sf_declared f) && sf_once f && match sf_sniff f with RdTrunc => true | _ => false end.
+Definition src_fails_visibly (f : srcfile) : bool := src_fails f && negb (sniff_swallowed f).
+
 (* the four repairs, and one ordering the code relies on, switchable so that each can be shown necessary *)
 Record fixes := mkfx {
   fx_defer_first : bool;          (* F-C12-2: the file-closing defer is registered before the form-field loop *)
@@ -382,6 +446,38 @@ Definition dump_closes_twice (sc : scenario) : bool :=
                  | TRespond _ r => printable (rb_ctype r) && negb (faulty (rb_fault r))
                  | TFail _ => false
                  end.
+
+(* ====================== (ii') what Submit leaves behind for the next call ====================== *)
+(* When Submit returns after a response was obtained, two deferred calls run, in the reverse order of their
+   registration: the response body's Close (with connection reuse enabled the draining Close of (i)) and cancel() of
+   the per-call context. A drain on a cancelled exchange fails at once and leaves the remainder on the wire.
+   net/http keeps a connection for the next request exactly when the response body was read to its end before it was
+   closed. So the order [EClose; ECancel] matters, and only for what the NEXT call on the same Runtime finds. *)
+Inductive epi := EClose | ECancel.
+Record xst := mkx { x_cancelled : bool; x_ended : bool (* the end of the body was seen *); x_closes : nat }.
+Definition epi_step (keepalive : bool) (s : xst) (e : epi) : xst :=
+  match e with
+  | ECancel => mkx true (x_ended s) (x_closes s)
+  | EClose => if keepalive && negb (x_ended s) && negb (x_cancelled s)
+              then mkx (x_cancelled s) true (S (x_closes s))      (* drained to its end (C12_drain), then closed *)
+              else mkx (x_cancelled s) (x_ended s) (S (x_closes s))
+  end.
+Definition run_epilogue (keepalive : bool) (order : list epi) (reader_saw_end : bool) : xst :=
+  fold_left (epi_step keepalive) order (mkx false reader_saw_end 0).
+(* runtime.go: cancel is deferred first, the Close of the body later, so the Close runs first *)
+Definition submit_epilogue : list epi := [EClose; ECancel].
+Definition wrong_epilogue : list epi := [ECancel; EClose].
+Definition after_exchange (keepalive reader_saw_end : bool) : xst := run_epilogue keepalive submit_epilogue reader_saw_end.
+
+(* sequential calls on one Runtime: have_idle = the pool holds a connection; kept = per call, whether its
+   connection goes back to the pool; the number of connections dialled *)
+Fixpoint conns_used (have_idle : bool) (kept : list bool) : nat :=
+  match kept with
+  | [] => 0
+  | k :: r => (if have_idle then 0 else 1) + conns_used k r
+  end.
+Definition conns_of_history (order : list epi) (keepalive : bool) (readers_saw_end : list bool) : nat :=
+  conns_used false (map (fun e => x_ended (run_epilogue keepalive order e)) readers_saw_end).
 
 (* ====================== (iii) the effective deadline ====================== *)
 (* parent: the deadline of the caller's context, if any; timeout 0 = none (times in any unit, as Z).
